@@ -11,7 +11,12 @@ type lazySubContext struct {
 }
 
 func (s *lazySubContext) GetMatch(idx int) string {
-	if idx < 0 || idx >= len(s.args) {
+	if idx < 0 {
+		// never an argument: pass on to the match, so that a body touching the context
+		// to stay dynamic (eg. {time live}) is seen by static analysis of the call
+		return s.sub.GetMatch(idx)
+	}
+	if idx >= len(s.args) {
 		return ""
 	}
 	return s.args[idx](s.sub)
